@@ -15,11 +15,14 @@ fn space_for(tier: Tier) -> (Space, usize) {
     let mut s = Space::new();
     match tier {
         Tier::Quick => {
-            s.ast("K0", 4, 128).ast("Q", 3, 128).ast("CL", 3, 128);
+            s.ast("K0", 5, 128).ast("Q", 3, 128).ast("CL", 3, 128).ast("AN", 3, 128);
             (s, 3)
         }
         Tier::Thorough => {
-            s.ast("K0", 5, 128).ast("Q", 4, 128).ast("CL", 4, 128).ast("AN", 4, 128);
+            s.ast("K0", 5, 128).ast("Q", 4, 128).ast("CL", 4, 128).ast("AN", 5, 128).ast("U", 4, 128).ast("CI", 3, 128);
+            // one more level of depth on shorter inputs, restricted to patterns
+            // without a quantifier over a possibly-empty body
+            s.ast_range("K0", 6, 6, 256, 3);
             (s, 4)
         }
     }
@@ -55,6 +58,8 @@ impl Check for C01 {
             space::SegKind::Ast { scope, .. } => crate::gen::scope(scope).sigma,
             _ => unreachable!(),
         };
+        let restricted = seg.param > 0;
+        let maxlen = if seg.param > 0 { seg.param } else { maxlen };
         let inputs = all_strings(&sigma, maxlen);
         let inputs_c: Vec<Vec<char>> = inputs.iter().map(|s| s.chars().collect()).collect();
         space::for_each_text(seg, lo, hi, &mut |_idx, text| {
@@ -71,6 +76,10 @@ impl Check for C01 {
             };
             if parsed.ast.has_backref() {
                 out.inc("backref_skipped");
+                return;
+            }
+            if restricted && parsed.ast.has_nullable_loop() {
+                out.inc("restricted_layer_nullable_loop_skipped");
                 return;
             }
             out.inc("patterns");
